@@ -75,6 +75,9 @@ type WorkerOut struct {
 	Hist     map[string]int `json:"hist"`
 	Commit   []CommitCase   `json:"commit_cases"`
 	Fatal    string         `json:"fatal,omitempty"`
+	// directed scenario createfail: "ok" or the step that did not return / panicked (+ all goroutine stacks)
+	CreateFail       string `json:"createfail,omitempty"`
+	CreateFailStacks string `json:"createfail_stacks,omitempty"`
 	Timing   []string       `json:"timing"`
 }
 
@@ -630,6 +633,97 @@ func directedResave(seed uint64, gt uint32, out *WorkerOut) {
 	}
 }
 
+// ------------------------------------------------------------------------------------ directed: os.Create of the snapshot file fails
+
+// directedCreateFail makes os.Create(<tip hash>.db.tmp) of one snapshot fail (a DIRECTORY of that name is put into the data
+// directory - works for root too, unlike chmod; stands for a full disk / permission / too many open files) and then goes on
+// like a node does: next block, Idle (next snapshot), next block, Close. Every step must return: a failed snapshot may be
+// lost, the node must not wedge. (Before the fix the file goroutine returned without lastFileClosed.Done(): the NEXT save()
+// parked in lastFileClosed.Wait() with WritingInProgress set, and the next CommitBlockTxs waited for it holding db.Mutex.)
+func directedCreateFail(seed uint64, gt uint32, out *WorkerOut) {
+	runtime.GOMAXPROCS(4)
+	vhook.Set(nil)
+	utxo.UTXO_WRITING_TIME_TARGET = 0
+	utxo.UTXO_SKIP_SAVE_BLOCKS = 0
+	g := vlib.NewRng(seed ^ 0xC4EA7E)
+	k, err := chainkit.New(chainkit.Opts{GenesisTime: gt}, g.Fork())
+	if err != nil {
+		panic(err)
+	}
+	for i := 0; i < 103; i++ {
+		k.MustExtend(nil, 0)
+	}
+	rc := &recorder{dir: k.Dir, cfg: "directed-createfail", want: map[string]Res{}}
+	note := func(tag string) {
+		tip, h := k.Tip()
+		rc.want[tip] = Res{Tip: tip, Height: h, Dump: chainkit.DumpHash(chainkit.UtxoDump(k.Ch.Unspent))}
+		rc.ev("h:" + tag)
+	}
+	note("N-1")
+	vhook.Set(rc.hook)
+	k.Ch.Idle()
+	waitSaved(k.Ch.Unspent)
+	rp := Replay{Cfg: Cfg{Name: "directed-createfail", Procs: 4}}
+	step := func(what string, f func()) bool {
+		done := make(chan string, 1)
+		go func() {
+			defer func() {
+				if x := recover(); x != nil {
+					done <- fmt.Sprint("panic: ", x)
+				}
+			}()
+			f()
+			done <- ""
+		}()
+		select {
+		case e := <-done:
+			if e != "" {
+				out.CreateFail = what + ": " + e
+				return false
+			}
+			return true
+		case <-time.After(8 * time.Second):
+			out.CreateFail = what + " did not return within 8 s after os.Create of the previous snapshot's file had failed"
+			buf := make([]byte, 1<<16)
+			out.CreateFailStacks = string(buf[:runtime.Stack(buf, true)])
+			return false
+		}
+	}
+	out.CreateFail = "ok"
+	ok := step("block N", func() { k.MustExtend(nil, 0); note("N") })
+	if ok {
+		tip, _ := k.Tip()
+		raw, _ := hex.DecodeString(tip)
+		blocker := k.Dir + btc.NewUint256(raw).String() + ".db.tmp"
+		if e := os.Mkdir(blocker, 0755); e != nil {
+			out.CreateFail = "harness: cannot create the blocking directory: " + e.Error()
+			ok = false
+		}
+		os.WriteFile(blocker+"/x", []byte("x"), 0644) // non-empty: os.Remove / os.Rename onto UTXO.db cannot succeed either
+		out.Hist["directed:createfail:tmp-name-blocked"]++
+	}
+	ok = ok && step("Idle (snapshot whose os.Create fails)", func() { k.Ch.Idle(); waitSaved(k.Ch.Unspent) })
+	ok = ok && step("block N+1", func() { k.MustExtend(nil, 0); note("N+1") })
+	ok = ok && step("Idle (next snapshot)", func() { k.Ch.Idle() })
+	ok = ok && step("block N+2 (CommitBlockTxs -> abortWriting)", func() { k.MustExtend(nil, 0); note("N+2") })
+	ok = ok && step("Idle + wait (snapshot of N+2)", func() { k.Ch.Idle(); waitSaved(k.Ch.Unspent) })
+	ok = ok && step("Close", func() { k.Ch.Close() })
+	if ok {
+		vhook.Set(nil)
+		k.Ch = nil
+		s := readSnapshot(k.Dir + "UTXO.db")
+		s.Where = "final"
+		rc.addSnap(s)
+		k.Close()
+	}
+	// not ok: the chain is wedged; the worker process exits without closing it
+	rp.Events = rc.events
+	rp.Snaps = len(rc.snaps)
+	out.Snaps = append(out.Snaps, rc.snaps...)
+	out.Replays = append(out.Replays, rp)
+	out.Hist["directed:createfail"]++
+}
+
 // ------------------------------------------------------------------------------------ main of the worker
 
 func workerMain(args []string) {
@@ -637,7 +731,7 @@ func workerMain(args []string) {
 	seed := fs.Uint64("seed", 1, "")
 	tier := fs.String("tier", "quick", "")
 	outp := fs.String("out", "", "")
-	only := fs.String("only", "", "run only this part: chain | resave | compr")
+	only := fs.String("only", "", "run only this part: chain | resave | compr | createfail")
 	shard := fs.Int("shard", 0, "")
 	fs.Parse(args)
 	out := &WorkerOut{Seed: *seed, Hist: map[string]int{}}
@@ -655,6 +749,11 @@ func workerMain(args []string) {
 		t0 := time.Now()
 		directedResave(*seed, gt, out)
 		out.Timing = append(out.Timing, fmt.Sprintf("resave %.1fs", time.Since(t0).Seconds()))
+	}
+	if *only == "" || *only == "createfail" {
+		t0 := time.Now()
+		directedCreateFail(*seed, gt, out)
+		out.Timing = append(out.Timing, fmt.Sprintf("createfail %.1fs", time.Since(t0).Seconds()))
 	}
 	if *only == "" || *only == "chain" {
 		t0 := time.Now()
